@@ -172,9 +172,22 @@ func (c12) Gen(rng *rand.Rand, tier string, k int) *Case {
 		}
 		c.Assets = append(c.Assets, a)
 	}
+	if !many && len(c.Assets) >= 2 && rng.Intn(10) == 0 {
+		// two tickers that differ only in case (the repositories tell them apart)
+		c.Assets[1].Name = strings.ToLower(c.Assets[0].Name)
+		if c.Assets[1].Name == c.Assets[0].Name {
+			c.Assets[1].Name = strings.ToUpper(c.Assets[0].Name)
+		}
+		if c.Assets[1].Name == c.Assets[0].Name {
+			c.Assets[1].Name = "B"
+		}
+	}
 	c.Workers = []int{1, 1, 2, 3, 4, 8}[rng.Intn(6)]
 	c.Delay = []int{0, 1, 5}[rng.Intn(3)]
-	c.Param = []int{rng.Intn(8), 0} // default start day, date mode
+	c.Param = []int{rng.Intn(8), 0, 0} // default start day, date mode, default start with a time of day
+	if rng.Intn(4) == 0 {
+		c.Param[2] = 1
+	}
 	if c.Impl != "file" && rng.Intn(6) == 0 {
 		// local midnights in a daylight-saving zone (the file-system target stores dates without a
 		// zone, so it is left out: its round trip turns them into UTC days)
@@ -476,6 +489,13 @@ func (c12) Run(c *Case, st *Stats) []Violation {
 	}
 	base := syncBase(c)
 	defaultStart := base.AddDate(0, 0, c.Param[0])
+	if len(c.Param) > 2 && c.Param[2] == 1 && c.Shape != 1 {
+		// the default start is an instant, not a day (cmd/indicator-sync passes "now minus n days"): a
+		// snapshot dated at midnight of that day lies before it. (Not with the Tiingo source, whose
+		// protocol can only express days.)
+		defaultStart = defaultStart.Add(14*time.Hour + 30*time.Minute)
+		st.Faults["default-start-date-with-a-time-of-day"]++
+	}
 	if base != base2000 {
 		st.Faults["dates-in-a-daylight-saving-zone"]++
 	}
